@@ -45,6 +45,12 @@ def history_loops(fi):
                 out.append(n)
             elif isinstance(core, (ast.Name, ast.Attribute)) and ast.unparse(core).split(".")[-1] in ("candles", "candles_"):
                 out.append(n)
+            elif (isinstance(core, ast.Subscript) and isinstance(core.slice, ast.Slice) and isinstance(core.value, (ast.Name, ast.Attribute))
+                  and ast.unparse(core.value).split(".")[-1] in ("candles", "candles_")
+                  and (core.slice.lower is None or (isinstance(core.slice.lower, ast.Constant) and core.slice.lower.value in (0, None)))
+                  and not (isinstance(core.slice.upper, ast.Constant) and isinstance(core.slice.upper.value, int))):
+                # a prefix slice `candles[:i]` / `candles[:]`: everything from the oldest candle up to a position
+                out.append(n)
     return out
 
 
